@@ -239,6 +239,18 @@ def run(F, R, tier, cfg):
             ok = ok and any(n[0] == "call" and n[1].endswith("::insert") and "field:associations" in tokens(n[2][0]) for n in walk(ro))
             # and the removal happens before the insert on every path that reaches it
             ok = ok and s_ins[0].bb in ab.reach([s_rem[0].bb])
+        # no exit bypasses the key→identity update: every return passes associations.insert, or a branch that
+        # inspects the associations map (a refresh fast path is only sound when it has checked that this key
+        # already maps to this identity)
+        rets = [x for x in ab.live_blocks() if ab.term(x)[0] == "ret"]
+        assoc_tests = [g for g in ab.live_blocks() if ab.term(g)[0] == "switch" and "field:associations" in tokens(ab.origin(ab.term(g)[1]))]
+        if a_ins:
+            mp, bad = T.must_pass(ab, rets, [a_ins[0].bb] + assoc_tests)
+            R.ob("FLOW-one-identity-per-key", "add_identity: no return bypasses the key association update", mp, True)
+            if not mp:
+                R.violation("FLOW-one-identity-per-key", ai + "/bypass",
+                            "add_identity can return without updating (or inspecting) the key→identity association: an identity "
+                            "superseded under its key stays registered, and an identity can end up under two keys", F.loc(ai))
         R.ob("FLOW-one-identity-per-key", "add_identity: associations.insert → remove previous session → retain other keys → sessions.insert", ok, True)
         if not ok:
             R.violation("FLOW-one-identity-per-key", ai, "add_identity no longer removes the previous identity of the key and the identity's other keys before inserting", F.loc(ai))
